@@ -253,4 +253,5 @@ Definition ccase_summary (c : ccase) : nat :=
   let g := conc_guard w st progs in
   (b2n agree 1 + b2n (negb g || negb differs) 2
    + b2n (negb differs || (mdiffers && negb g)) 4
-   + b2n differs 8 + b2n g 16 + b2n (negb (warm_b w st)) 32 + b2n (differs && negb g) 64)%nat.
+   + b2n differs 8 + b2n g 16 + b2n (negb (warm_b w st)) 32 + b2n (differs && negb g) 64
+   + b2n (differs && negb (forallb (ref_rec_closed w (eff_index w st)) progs)) 128)%nat.
